@@ -68,11 +68,11 @@ static double measure(Comp const &c, Opt o, cvm::rvector const *x, std::vector<c
   vproxy *px = new vproxy(NAT, true);
   px->set_target_temperature(o.T);
   for (int a = 0; a < NAT; a++) { px->x[a] = x[a]; px->m[a] = MASS[a]; }
-  if (px->config(conf_text(c, o, false)) != 0) { fprintf(stderr, "HARNESS-ERROR: %s rejected: %s\n", c.name, px->errtxt.c_str()); exit(2); }
+  if (px->config(conf_text(c, o, false)) != 0) { fprintf(stderr, "HARNESS-ERROR: %s rejected: %s\n", c.name, px->errtxt.c_str()); exit(3); }
   for (int a = 0; a < NAT; a++) px->fsys[a] = F[a];
   double r = 0;
   for (int s = 0; s < 2; s++) {
-    if (px->step(s) != 0) { fprintf(stderr, "HARNESS-ERROR: %s step error: %s\n", c.name, px->errtxt.c_str()); exit(2); }
+    if (px->step(s) != 0) { fprintf(stderr, "HARNESS-ERROR: %s step error: %s\n", c.name, px->errtxt.c_str()); exit(3); }
     r = px->cv("v")->total_force().real_value;
   }
   if (jd_out) *jd_out = px->cv("v")->fj.real_value;
@@ -200,7 +200,7 @@ int main(int argc, char **argv)
                 vproxy *px = new vproxy(NAT, true);
                 px->set_target_temperature(T);
                 for (int a = 0; a < NAT; a++) { px->x[a] = x[a]; px->m[a] = MASS[a]; }
-                if (px->config(conf_text(c, o, true)) != 0) { fprintf(stderr, "HARNESS-ERROR: second run rejected\n"); exit(2); }
+                if (px->config(conf_text(c, o, true)) != 0) { fprintf(stderr, "HARNESS-ERROR: second run rejected\n"); exit(3); }
                 for (int s = 0; s < 4; s++) {
                   for (int a = 0; a < NAT; a++) px->fsys[a] = applied[s][a];
                   if (px->step(s) != 0) { r.violation(std::string("C07:error-during-run:") + c.name, det + "}"); break; }
